@@ -1,16 +1,17 @@
 import PcfgVerif.Model.ExpandSpec
+import PcfgVerif.Lemmas.ExpandLemmas
 /-! Statements to be proved (work file for the expansion core: C04, C09, C17). -/
 namespace Pcfg
 
 /-- the Markov loop prints the level's guesses in order; unlimited -/
 theorem omenLoop_none (gs : List Str) :
     omenLoop gs none = ⟨gs, gs.length, false⟩ := by
-  sorry
+  exact omenLoop_none' gs
 
 /-- with a limit `n ≥ 1` it prints exactly the first `n` and returns how many it printed -/
 theorem omenLoop_limit (gs : List Str) (n : Nat) (hn : 1 ≤ n) :
     omenLoop gs (some (n : Int)) = ⟨gs.take n, min n gs.length, false⟩ := by
-  sorry
+  exact omenLoop_limit' gs n hn
 
 /-- C04: an error-free non-Markov pre-terminal expands to exactly the product of its groups, and the
 returned count is the number of lines written -/
@@ -18,7 +19,7 @@ theorem recGuesses_none (upper : Char → List Char) (g : EGrammar) (omen : Nat 
     (cur : Str) (pt : PT) (hpt : pt ≠ []) (hok : okSpec upper g cur pt = true) :
     recGuesses upper g omen cur pt none =
       ⟨productSpec upper g cur pt, (productSpec upper g cur pt).length, false⟩ := by
-  sorry
+  exact (recGuesses_spec upper g omen pt cur hpt hok).1
 
 /-- C09: with `limit = n ≥ 1` the output is exactly the first `n` lines of the unlimited output, the
 count is `min n total` — also when `n` falls inside a group or inside a mask loop -/
@@ -26,12 +27,12 @@ theorem recGuesses_limit (upper : Char → List Char) (g : EGrammar) (omen : Nat
     (cur : Str) (pt : PT) (hpt : pt ≠ []) (hok : okSpec upper g cur pt = true) (n : Nat) (hn : 1 ≤ n) :
     recGuesses upper g omen cur pt (some (n : Int)) =
       ⟨(productSpec upper g cur pt).take n, min n (productSpec upper g cur pt).length, false⟩ := by
-  sorry
+  exact (recGuesses_spec upper g omen pt cur hpt hok).2 n hn
 
 /-- every group of an error-free pre-terminal is non-empty, so it produces at least one guess -/
 theorem productSpec_pos (upper : Char → List Char) (g : EGrammar) (cur : Str) (pt : PT)
     (hok : okSpec upper g cur pt = true) : 0 < (productSpec upper g cur pt).length := by
-  sorry
+  exact productSpec_pos' upper g pt cur hok
 
 /-- a generator that honours its limit exactly -/
 def ExactLimit (gen : PT → Option Int → ERes) : Prop :=
@@ -43,11 +44,58 @@ first `N` lines of the unlimited run (all of them if there are fewer) -/
 theorem sessionLoop_limit (gen : PT → Option Int → ERes) (hgen : ExactLimit gen)
     (pts : List PT) (n : Nat) (hn : 1 ≤ n) :
     sessionLoop gen pts (some (n : Int)) = (sessionLoop gen pts none).take n := by
-  sorry
+  induction pts generalizing n with
+  | nil => simp [sessionLoop]
+  | cons pt rest ih =>
+    have hpt := (hgen pt).2 n hn
+    unfold sessionLoop
+    simp only [limTruthy_pos n hn, limTruthy_none, Bool.false_eq_true, if_false, if_true,
+      Option.getD_some, hpt, Frag.sessionHit_eq]
+    by_cases hk : n ≤ (gen pt none).out.length
+    · have h0 : ((n : Int) - ((min n (gen pt none).out.length : Nat) : Int)) = 0 := by omega
+      simp only [h0]
+      simp [List.take_append, Nat.sub_eq_zero_of_le hk]
+    · have hcast : ((n : Int) - ((min n (gen pt none).out.length : Nat) : Int)) =
+          ((n - (gen pt none).out.length : Nat) : Int) := by omega
+      have hd : ¬ (((n - (gen pt none).out.length : Nat) : Int) ≤ 0) := by omega
+      simp only [hcast, decide_eq_false hd, Bool.false_eq_true, if_false]
+      rw [ih (n - (gen pt none).out.length) (by omega), List.take_append,
+        List.take_of_length_le (by omega)]
 
 /-- the unlimited session output is the concatenation of the pre-terminals' outputs -/
 theorem sessionLoop_none (gen : PT → Option Int → ERes) (pts : List PT) :
     sessionLoop gen pts none = pts.flatMap fun pt => (gen pt none).out := by
-  sorry
+  induction pts with
+  | nil => rfl
+  | cons pt rest ih =>
+    unfold sessionLoop
+    simp [limTruthy_none, ih]
+
+/-! ## Non-vacuity -/
+namespace ExpandExample
+
+def up (c : Char) : List Char := [c.toUpper]
+def gr : EGrammar :=
+  [("A2", [[['a','b'],['c','d']]]), ("C2", [[['L','L'],['U','L']]]), ("D1", [[['1'],['2']]])]
+def pt0 : PT := [("A2", 0), ("C2", 0), ("D1", 0)]
+
+example : okSpec up gr [] pt0 = true := by decide
+
+example : productSpec up gr [] pt0 =
+    ["ab1".toList, "ab2".toList, "Ab1".toList, "Ab2".toList,
+     "cd1".toList, "cd2".toList, "Cd1".toList, "Cd2".toList] := by decide
+
+/-- the limit 3 falls inside the mask loop (second mask of the first word) -/
+example : recGuesses up gr (fun _ => none) [] pt0 (some 3) =
+    ⟨["ab1".toList, "ab2".toList, "Ab1".toList], 3, false⟩ := by rfl
+
+example : (recGuesses up gr (fun _ => none) [] pt0 (some 3)).out =
+    (productSpec up gr [] pt0).take 3 := by decide
+
+/-- the limit falls inside a mask loop that is itself the last position -/
+example : recGuesses up gr (fun _ => none) [] [("A2", 0), ("C2", 0)] (some 3) =
+    ⟨["ab".toList, "Ab".toList, "cd".toList], 3, false⟩ := by rfl
+
+end ExpandExample
 
 end Pcfg
